@@ -195,8 +195,14 @@ def _evaluate(pristine, rep, times, path, jump_path):
 
     p = copy.deepcopy(pristine)
     p.update(ProcessRepresentation.LOG if rep == "LOG" else ProcessRepresentation.IDENDITY)
+    path = np.asarray(path, dtype=float)
+    kept = path.copy()
     uv = p.underlying_value(times, path, jump_path)
-    return np.asarray(p(uv), dtype=float), p
+    val = np.asarray(p(uv), dtype=float)
+    if not np.array_equal(kept, path, equal_nan=True):
+        _evaluate.path_modified = type(p.payoff_underlying).__name__
+        path[...] = kept
+    return val, p
 
 
 def execute(wd, sc):
@@ -471,7 +477,11 @@ def execute(wd, sc):
                     if sc.get("jitter") and not np.array_equal(ptimes, times):
                         wd.probes["c17.stochastic_time_grid"] += 1
                     path = base + drift * ptimes + d + j
+                    _evaluate.path_modified = None
                     val, pobj = _evaluate(pristine_run, run["rep"], ptimes, path, j)
+                    if _evaluate.path_modified:
+                        add(f"C17.history|evaluating a product changes the path it was given (whoever reads the path next gets other values)|underlying={_evaluate.path_modified}|rep={run['rep']}",
+                            {"run": ri, "index": i})
                     exp = float(np.ravel(val)[0]) * df
                     got = float(store[i])
                     ev = getattr(pobj.payoff, "barrier_event", None)
